@@ -363,4 +363,37 @@ def rule_h(ctx: Ctx) -> None:
     ctx.explain('C19.h: reporter calls whose element argument is `context.source.root` (reports issued after the walk).')
 
 
-RULES = [rule_a, rule_b, rule_c, rule_d, rule_e, rule_f, rule_g, rule_h]
+def rule_i(ctx: Ctx) -> None:
+    """A missing child is reported (at its parent): the occurrence bookkeeping of a re-entered nested group starts from zero - C01.h body."""
+    from .c01 import rule_h as group_reset
+    group_reset(ctx, 'C19.i')
+
+
+def rule_j(ctx: Ctx) -> None:
+    """No error outside the damaged node's ancestor chain and subtree: once a content model is broken the remaining children are matched
+    without the model (XsdGroup.match_element) and still have to be validated with their own declaration.  The two sibling matchers
+    agree: both return what `<particle>.match(name, …)` resolves - for a member of a substitution group the member's declaration, not the
+    head whose name test succeeded."""
+    rule = 'C19.j'
+    n = 0
+    for cq in ('xmlschema.validators.groups.XsdGroup', 'xmlschema.validators.models.ModelVisitor'):
+        f = ctx.idx.method(cq, 'match_element')
+        ctx.analysed(f.qualname)
+        rets = [r for r in ast.walk(f.node) if isinstance(r, ast.Return) and r.value is not None and not (isinstance(r.value, ast.Constant) and r.value.value is None)]
+        resolved = set()
+        for x in ast.walk(f.node):
+            if isinstance(x, ast.Assign) and isinstance(x.value, ast.Call) and isinstance(x.value.func, ast.Attribute) and x.value.func.attr == 'match' and isinstance(x.targets[0], ast.Name):
+                resolved.add(x.targets[0].id)
+        for r in rets:
+            n += 1
+            v = r.value
+            ok = (isinstance(v, ast.Call) and isinstance(v.func, ast.Attribute) and v.func.attr == 'match') or (isinstance(v, ast.Name) and v.id in resolved)
+            # a particle returned after a bare name test is the declaration named in the model, i.e. the head for a substitute
+            ctx.ob(rule, f'{cq.split(".")[-1]}.match_element: `return {text(v)[:40]}` hands back the declaration resolved by <particle>.match(…)', f.loc(r), ok,
+                   '' if ok else 'the particle itself is returned after `is_matching`: for <sub substitutionGroup="head"> the head is returned and the child is validated with the '
+                   'head\'s type - after a single misplaced sibling the valid subtree <sub><n/><m/></sub> gets "Unexpected child with tag \'m\'"', key=f'{cq}.match_element|resolved|{text(v)[:30]}')
+    ctx.floor(rule, 'returns of the child matchers', n, 2)
+    ctx.explain('C19.j: sibling agreement of XsdGroup.match_element (model-less) and ModelVisitor.match_element: every non-None return value is the result of a `.match(…)` call.')
+
+
+RULES = [rule_a, rule_b, rule_c, rule_d, rule_e, rule_f, rule_g, rule_h, rule_i, rule_j]
